@@ -17,6 +17,8 @@ Lean rendering (namespace Fc.Gen):
 Anything the extractor does not recognise raises: the tables are then not regenerated, the stale
 file no longer matches the code and the run reports it (vcheck notes `gen_tables failed`)."""
 from __future__ import annotations
+
+PROPERTIES = ['C11', 'C15']   # properties whose proofs depend on these declarations
 import ast
 
 FDC = "fieldcompare/_field_data_comparison.py"
